@@ -2,6 +2,7 @@
 GL_ALL = ('contracts.grouped_list', None)
 
 FCM = ('contracts.qualitative', None)
+TRANSFORM = ('contracts.transform', None)
 ENUM = ('contracts.base_carver', ['combinations_at_index', 'consecutive_combinations', 'consecutive_combinations@top', 'nan_combinations', 'order_apply_combination'])
 
 REGISTRY = {
@@ -12,7 +13,7 @@ REGISTRY = {
                          'a union of base modalities, and attains the maximal measure over all viable candidates; two-stage NaN search) on count-table frames with exact ties / '
                          'boundary frequencies and random frames.',
              trusted=['scipy chi2_contingency / kruskal as the statistic of the oracle', 'Discretizer (same parameters) defines the base modalities, as the property states']),
- 'C02': dict(level='other', P=[ENUM], S=['contracts.forwarding:carver_defaults_obligations'], R=['rtc.c01_carver'],
+ 'C02': dict(level='other', P=[ENUM, TRANSFORM], S=['contracts.forwarding:carver_defaults_obligations'], R=['rtc.c01_carver'],
              explanation='PROVED (engine P): every candidate ever generated has between 2 and max_n_mod groups, the NaN-alone placement only when len < max_n_mod. '
                          'BOUNDED (engine R): post-conditions of fit+transform on train and dev (label count, per-label frequency >= min_freq_mod, missing handling, same labels and '
                          'same rate ranking on dev) on the same frames as C01.',
@@ -21,7 +22,7 @@ REGISTRY = {
              explanation='PROVED: every grouping the carvers ever test is a contiguous partition of the ordered base modalities (enumerator soundness). BOUNDED: boundaries strictly '
                          'increasing with +inf last, ordinal groups are consecutive runs of the user ranking, categorical leaders in target-rate order, transform is a non-decreasing '
                          'right-closed step function on probes (boundaries, nextafter neighbours, midpoints, +-1e300), fitted carver groups contiguous.'),
- 'C04': dict(level='other', P=[('contracts.labels', None), ('contracts.type_discretizers', None)], R=['rtc.battery_C04'],
+ 'C04': dict(level='other', P=[('contracts.labels', None), ('contracts.type_discretizers', None), TRANSFORM], R=['rtc.battery_C04'],
              explanation='PROVED: _get_labels_per_values builds, for every feature, a label table defined exactly on the known values in which all members of a group share one label, float labels are the rank of the group, a qualitative str label is the leader, and distinct groups get distinct labels (three nested loop invariants; get_labels assumed); type_discretizers.fit_feature groups every raw value under its string form (str / int / is_integer assumed symbols; string forms assumed pairwise distinct and not themselves raw values). BOUNDED: for every fitted object (all discretizer classes, carvers, objects rebuilt from JSON, re-indexed frames) and every training row the output is the label of '
                          'the unique group containing the value; distinct groups have distinct labels; float labels are ranks; missing-value handling per dropna.'),
  'C05': dict(level='other', P=[], R=['rtc.battery_C05'],
@@ -30,8 +31,8 @@ REGISTRY = {
  'C06': dict(level='other', P=[('contracts.serialization', None)], R=['rtc.battery_C06'],
              explanation='PROVED: the value converters of serialization.py (single value and list overloads): strings unchanged, non-finite numbers become the marker, finite numbers keep their value, the result is json-serialisable, and decoding the encoded value gives the value back on the domain {strings other than the marker, finite numbers, +inf} (numpy classification predicates assumed). BOUNDED: to_json is json-serialisable; the reloaded object gives the same transform output or the same rejection on train / dev / shifted / unseen / float32 frames, '
                          'the same summary, and re-serialises to the same JSON.'),
- 'C07': dict(level='other', P=[], R=['rtc.battery_C07'],
-             explanation='BOUNDED: fit_transform == fit;transform, row-wise purity (subset, permutation, three re-indexings), repeatability, fitted state unchanged by transform, index/columns '
+ 'C07': dict(level='other', P=[TRANSFORM], R=['rtc.battery_C07'],
+             explanation='PROVED: BaseDiscretizer.transform writes nothing reachable from self (frame obligation, given the assumed frames of _prepare_data / _transform_quantitative / _transform_qualitative), and its missing-value loop touches exactly the columns of features whose per-feature dropna flag is False. BOUNDED: fit_transform == fit;transform, row-wise purity (subset, permutation, three re-indexings), repeatability, fitted state unchanged by transform, index/columns '
                          'kept, non-feature columns untouched, caller data unmodified with copy=True.'),
  'C08': dict(level='other', P=[GL_ALL, ('contracts.base_discretizers', None)], R=['rtc.battery_C08', 'rtc.c09_base'],
              explanation='PROVED: every GroupedList operation preserves the ordered-partition invariant (so any values_orders entry built through them is well formed); the four _remove_feature methods remove the feature from every per-feature attribute and every casting list, leave all other entries unchanged and preserve the coherence invariant COH. BOUNDED: fit completes or '
